@@ -30,6 +30,9 @@ func c10Config(rc *RunCtx) {
 	r := rc.Rng
 	rc.Cfg["version"] = []int{2, 3, 3, 23}[r.Intn(4)]
 	rc.Cfg["alphabet"] = r.Intn(2)
+	if r.Chance(1, 8) {
+		rc.Cfg["alphabet"] = 4 // text ending in blanks (texts that look like protocol are left to C03/C04: sent in clear they ARE protocol to the peer and to the shadow)
+	}
 	rc.Cfg["starter"] = r.Intn(2)
 	rc.Cfg["refpeer"] = r.Intn(2)
 	if rc.Cfg["refpeer"] == 1 && rc.Cfg["version"] == 23 {
@@ -46,6 +49,11 @@ func c10Config(rc *RunCtx) {
 	rc.Parties = []PartyCfg{
 		{KeyIdx: 0, Pol: pol, Frag: fa, Peer: 1, ErrHandler: r.Bool()},
 		{KeyIdx: 1, Pol: pol, Frag: fb, Peer: 0, ErrHandler: r.Bool()},
+	}
+	rc.Cfg["wsstart"] = 0
+	if rc.Cfg["refpeer"] == 1 && r.Chance(1, 4) {
+		rc.Cfg["wsstart"] = 1 // the session is started by the reference peer's whitespace tag
+		rc.Parties[0].Pol |= PolWSStart
 	}
 }
 
